@@ -7,7 +7,7 @@ CLAIMED = {
    text='Theorem c06_encode_exact: the Gallina mirror of raw_abi_encode equals an encoder written from the Solidity ABI specification for every token list below 2^32 bytes, rejections included; field lists regenerated from abi_types.rs are pinned; the Rust encoder is run on generated values and compared byte for byte with model and specification.',
    note='Trusted: Coq kernel, hand-written model of abi.rs tied to the code by the correspondence, gen_tables.py, harness. Encodings >= 2^32 bytes (u32 wrap) are outside the theorem.'),
  'C07': dict(section='8/C07', technique='Coq proof (dec_impl = dec_spec on all byte strings; round trip) + differential correspondence of the Rust decoder on mutated encodings',
-   text='Theorems c07_decode_exact (for ALL byte strings the mirrored decoder equals the ABI-layout decoder), c07_roundtrip, c07_field_sound (reads inside the buffer, offsets/lengths < 2^32, u8 < 256), struct-level versions for the five payloads; the Rust decoder is run on canonical and mutated encodings and compared with model and specification.',
+   text='Theorems c07_decode_exact (for ALL byte strings the mirrored decoder equals the ABI-layout decoder), c07_roundtrip, c07_field_sound (reads inside the buffer, offsets/lengths < 2^32, u8 < 256), struct-level versions for the five payloads; the Rust decoder is run on canonical and mutated encodings and compared with model and specification; second part: ITS traces opening with the message-type battery (first words 2^63, 2^64, 2^255, 6, 7, 2^32 and known types under non-zero high bytes, direct and hub-wrapped) compare what ITS execute makes of the message-type word with the model.',
    note='Trusted: as C06; out-of-bounds freedom of the implementation rests on the managed buffer API (exercised, not proved).'),
 }
 CLAIMED.update({
@@ -26,7 +26,7 @@ CLAIMED.update({
    text='Theorems c09_add_flow_spec, c09_accept_in/out, c09_reject_iff, c09_step_bounded (all sixteen operations, all callers), c09_history_bounded, c09_fresh_epoch, c09_unlimited, c09_limit_gate; EPOCH_TIME regenerated and pinned to 21600; the real contract is compared step by step (status, returns, events, storage, balances) on histories with amounts around L and epoch boundaries.',
    note='Trusted: Coq kernel; hand-written model of token-manager tied by the correspondence; gen_tables.py; harness.'),
  'C10': dict(section='8/C10', technique='Coq proof (service-only, exact custody/supply effect of give/take, mint/burn gates, role transfer/proposal algebra, role frame) + differential correspondence in the Rust VM',
-   text='Theorems c10_give/take_service_only, c10_give_lock, c10_take_lock, c10_transfer_exact, c10_give_mint, c10_take_mint, c10_mint/burn_requires, c10_transfer_role, c10_accept_role (usable once), c10_*_auth, c10_roles_frame, c10_no_redeploy; correspondence over all five manager types and every caller class.',
+   text='Theorems c10_give/take_service_only, c10_give_lock, c10_take_lock, c10_transfer_exact, c10_give_mint, c10_take_mint, c10_mint/burn_requires, c10_transfer_role, c10_accept_role (usable once), c10_*_auth, c10_roles_frame, c10_no_redeploy; correspondence over all five manager types and every caller class. Upgrade path (Model/TMUpgrade.v): c10_upgrade_spec, c10_upgrade_moves_nothing, c10_service_forever, c10_give/take_after_history_service_only, c10_token_forever_with_upgrades, c10_upgrade_nonvacuous; upgrades by the owner with arbitrary constructor arguments are part of the traces.',
    note='Trusted: as C09; per-step custody statements (the history-level sum is their direct fold); ESDT role/frozen-account rules of the protocol are outside the model. History level (Proofs/TMCustody.v): c10_custody_step and c10_custody_history (holdings of a lock/unlock manager = initial + taken - given over every operation sequence).'),
 })
 CLAIMED.update({
